@@ -494,6 +494,8 @@ struct Gen<'a> {
     suffix: String, only: Only, res_keys: BTreeSet<String>, gen_keys: BTreeSet<String>,
     /// when set, lines are collected instead of printed (source of the `ea` stream)
     capture: Option<Vec<Captured>>,
+    /// huge receivers (part 2): `Trait.method` keys left out because the call or its model is not cheap at that size
+    skip: BTreeSet<String>,
 }
 impl<'a> Gen<'a> {
     fn e(&mut self, cls: &str, tr: &str, m: &str, s: &[usize], toks: &[String]) {
@@ -502,6 +504,7 @@ impl<'a> Gen<'a> {
             if matches!(cls, "m" | "b" | "u") && self.res_keys.contains(&key) { c.push((cls.to_string(), tr.to_string(), m.to_string(), toks.to_vec())); }
             return;
         }
+        if self.skip.contains(&key) || self.skip.contains(&format!("{cls}.{key}")) { return; }
         if self.suffix.is_empty() { self.seen.entry(key).or_default().insert(cls.to_string()); }
         else {
             match self.only { Only::ResImpl if !self.res_keys.contains(&key) => return, Only::Generic if !self.gen_keys.contains(&key) => return, _ => {} }
@@ -753,12 +756,159 @@ fn gen_options(g: &mut Gen, s: &[usize]) {
     }
 }
 
+/// invalid axes REPEATED inside an axis list (2, 3, 4 times; alone and mixed with valid axes, in every position): a validation
+/// that first cancels / dedups / sorts the list must still refuse them.  Every axis-list argument of every operation.
+fn gen_repeated_axes(g: &mut Gen, s: &[usize]) {
+    let r = s.len();
+    let none = st("none");
+    let lists = |b: &str| -> Vec<String> {
+        let mut v = vec![format!("{b},{b}"), format!("{b},{b},{b}"), format!("{b},{b},{b},{b}"), format!("0,{b},{b}"), format!("{b},0,{b}"), format!("{b},{b},0"), format!("{b},-1,{b},0"), format!("-1,{b},{b},{b},{b}")];
+        if r >= 2 { v.push(format!("1,{b},0,{b}")); v.push(format!("{b},{b},1,0")); }
+        v
+    };
+    let ones = |l: &str| -> String { l.split(',').map(|_| "1").collect::<Vec<_>>().join(",") };
+    let valid = |l: &str| -> String { l.split(',').enumerate().map(|(i, _)| (i % r).to_string()).collect::<Vec<_>>().join(",") };
+    for b in bad_i(r) {
+        for l in lists(&b) {
+            g.e("m", "ArrayReorder", "flip", s, &[l.clone()]);
+            g.e("m", "ArrayAxis", "squeeze", s, &[l.clone()]);
+            g.e("m", "ArrayAxis", "transpose", s, &[l.clone()]);
+            g.e("m", "ArrayAxis", "moveaxis", s, &[l.clone(), valid(&l)]);
+            g.e("m", "ArrayAxis", "moveaxis", s, &[valid(&l), l.clone()]);
+            g.e("m", "ArrayAxis", "moveaxis", s, &[l.clone(), l.clone()]);
+            g.e("m", "ArrayReorder", "roll", s, &[ones(&l), l.clone()]);
+            g.e("m", "ArrayReorder", "rot90", s, &[st("1"), l.clone()]);
+            g.e("m", "ArrayReorder", "rot90", s, &[st("2"), l.clone()]);
+            g.e("u", "ArrayLinalgNorms", "norm", s, &[none.clone(), l.clone()]);
+        }
+        // a transposition list of the right length in which the invalid axis takes two / all places
+        if r >= 2 { let mut ax: Vec<String> = (0..r).map(|x| x.to_string()).collect(); ax[0] = b.clone(); ax[r - 1] = b.clone(); g.e("m", "ArrayAxis", "transpose", s, &[ax.join(",")]); }
+        g.e("m", "ArrayAxis", "transpose", s, &[vec![b.clone(); r].join(",")]);
+    }
+    // expand_dims: the valid range is that of the RESULT rank r + (length of the list)
+    for len in 2..=5usize {
+        let rr = (r + len) as i64;
+        for b in [rr, rr + 1, -rr - 1, 1000, isize::MAX as i64, isize::MIN as i64] {
+            for pat in 0..4usize {
+                let mut l: Vec<String> = (0..len).map(|i| i.to_string()).collect();
+                match pat { 0 => { l[0] = b.to_string(); l[1] = b.to_string(); } 1 => { l[len - 1] = b.to_string(); l[len - 2] = b.to_string(); } 2 => { for x in l.iter_mut() { *x = b.to_string(); } } _ => { l[0] = b.to_string(); l[len - 1] = b.to_string(); } }
+                g.e("m", "ArrayAxis", "expand_dims", s, &[l.join(",")]);
+            }
+        }
+    }
+}
+
+/// hidden state: the receiver shapes of a colliding group interleaved (every shape directly after every neighbour, both orders)
+/// through one invalid-argument line and one smoke line of every shape-sensitive method; every failing call is thereby directly
+/// followed by a call on another shape
+fn c09_collision_groups() -> Vec<Vec<Vec<usize>>> {
+    let mut g: Vec<Vec<Vec<usize>>> = vec![];
+    for &m in &[31usize, 33, 37, 131, 257] { g.push(vec![vec![2, m], vec![1, 2 * m]]); g.push(vec![vec![3, 2, m], vec![3, 1, 2 * m]]); }
+    for (i, (a, b)) in collision_shape_pairs().into_iter().enumerate() { if i % 3 == 0 { g.push(vec![a, b]); } }
+    g.push(vec![vec![2, 3, 4], vec![4, 3, 2], vec![3, 4, 2], vec![2, 2, 6]]);
+    g.push(vec![vec![2, 6], vec![6, 2], vec![3, 4], vec![12, 1]]);
+    g.push(vec![vec![2, 3], vec![2, 259], vec![258, 3]]);
+    g
+}
+
+fn gen_part2(g: &mut Gen, thorough: bool, captured: &[Captured]) {
+    let ents = entries();
+    let none = st("none");
+    // 8a. invalid axes repeated inside an axis list, on ordinary, unit, big and (suffix -z: only a panic fails where the model accepts)
+    //     zero-size receivers, through the Result impl and the plain receiver and on other element types
+    g.with("", Only::All);
+    let mut rsh: Vec<Vec<usize>> = vec![vec![3], vec![2, 3], vec![2, 3, 2], vec![2, 2, 3, 2], vec![1, 3], vec![1, 1, 1], vec![600], vec![17, 16], vec![2, 70, 2]];
+    if thorough { rsh.extend(shapes(1, 3, 1, 2)); rsh.extend(vec![vec![5, 5, 5, 5], vec![2, 1, 2, 1, 2], vec![2, 2, 2, 2, 2, 2]]); }
+    for s in &rsh { gen_repeated_axes(g, s); }
+    for (suf, only) in [("-p", Only::ResImpl), ("-u8r", Only::Generic), ("-f64p", Only::Generic), ("-strr", Only::Generic)] {
+        g.with(suf, only);
+        for s in [vec![2usize, 3], vec![2, 3, 2], vec![3]] { gen_repeated_axes(g, &s); }
+    }
+    g.with("-z", Only::All);
+    for s in [vec![0usize], vec![2, 0], vec![0, 2, 3]] { gen_repeated_axes(g, &s); }
+    g.with("", Only::All);
+    // 8b. ranks 5..8 and long unsorted lists: every invalid-argument class on high-rank receivers
+    let mut hr: Vec<Vec<usize>> = vec![vec![2, 1, 2, 1, 2], vec![2, 2, 2, 2, 2, 2], vec![1, 2, 1, 2, 1, 2, 1], vec![2, 1, 1, 2, 1, 1, 1, 2]];
+    if thorough { hr.extend(vec![vec![2; 7], vec![2; 8], vec![3, 1, 2, 1, 2, 1, 1, 2]]); }
+    for s in &hr { gen_shape(g, s); gen_repeated_axes(g, s); }
+    // 8c. huge receivers (16 385 .. 140 000 elements, one axis above 65 536): every invalid-argument class whose call and model are
+    //     cheap at that size (an early refusal).  Left out: see `HUGE_SKIP`.
+    g.skip = HUGE_SKIP.iter().map(|k| k.to_string()).collect();
+    let mut huge: Vec<Vec<usize>> = vec![vec![20000], vec![70000], vec![2, 10000], vec![10000, 2], vec![130, 130], vec![40, 30, 30], vec![16385], vec![2, 70000], vec![10, 11, 12, 13]];
+    if thorough { huge.extend(vec![vec![140001], vec![70000, 2], vec![5, 4, 10, 10, 10], vec![300, 300], vec![33000], vec![129, 131]]); }
+    for s in &huge { gen_shape(g, s); }
+    for (suf, only) in [("-p", Only::ResImpl), ("-u8r", Only::Generic), ("-f64p", Only::Generic)] {
+        g.with(suf, only);
+        for s in [vec![20000usize], vec![2, 10000], vec![40, 30, 30]] { gen_shape(g, &s); }
+    }
+    g.with("", Only::All);
+    for s in [vec![20000usize], vec![130, 130]] { gen_options(g, &s); gen_repeated_axes(g, &s); }
+    g.skip.clear();
+    // 8d. hidden state: colliding receiver shapes interleaved — every captured invalid-argument line of the ea stream that is valid
+    //     for the rank, one smoke line per shape-sensitive method; every failing call is directly followed by a call on the sibling
+    let shape_sensitive = ["ArrayAxis", "ArrayReorder", "ArrayManipulate", "ArraySplit", "ArrayIndexing", "ArraySumProdDiff", "ArrayExtrema", "ArraySearch", "ArraySort", "ArrayCount", "ArrayBroadcast", "ArrayTiling"];
+    let _ = captured;
+    for grp in c09_collision_groups() {
+        let r = grp[0].len();
+        let mut seq: Vec<&Vec<usize>> = grp.iter().collect();
+        seq.push(&grp[0]); seq.extend(grp.iter().rev().skip(1)); seq.push(&grp[1]);
+        for e in &ents {
+            if !e.res_impl || !shape_sensitive.contains(&e.tr) { continue; }
+            // smoke with default arguments on every member, then an axis just outside the rank / an index just outside the array
+            for s in &seq { g.e("n", e.tr, e.m, s, &[]); }
+        }
+        for b in [r.to_string(), format!("-{}", r + 1)] {
+            for &(tr, m) in AXIS_REDUCE { for s in &seq { g.e("m", tr, m, s, &[b.clone()]); g.e("n", tr, m, s, &[]); } }
+            for s in &seq {
+                g.e("m", "ArrayReorder", "flip", s, &[b.clone()]); g.e("n", "ArrayReorder", "flip", s, &[]);
+                g.e("m", "ArrayAxis", "squeeze", s, &[b.clone()]); g.e("n", "ArrayAxis", "transpose", s, &[]);
+                g.e("m", "ArrayAxis", "swapaxes", s, &[b.clone(), st("0")]); g.e("n", "ArrayAxis", "swapaxes", s, &[]);
+                g.e("m", "ArrayAxis", "rollaxis", s, &[b.clone(), none.clone()]); g.e("n", "ArrayAxis", "rollaxis", s, &[]);
+            }
+        }
+        for s in &seq {
+            let n: usize = s.iter().product();
+            g.e("m", "ArrayManipulate", "delete", s, &[n.to_string(), none.clone()]); g.e("t", "ArrayManipulate", "delete", s, &[st("0"), none.clone()]);
+            g.e("m", "ArrayIndexing", "index_to_coord", s, &[n.to_string()]); g.e("n", "ArrayIndexing", "index_to_coord", s, &[]);
+            g.e("m", "ArrayIndexing", "index_at", s, &[l(s)]); g.e("n", "ArrayIndexing", "index_at", s, &[]);
+            g.e("m", "ArrayManipulate", "reshape", s, &[(n + 1).to_string()]); g.e("n", "ArrayManipulate", "reshape", s, &[]);
+            g.e("m", "ArraySplit", "split_axis", s, &[r.to_string()]); g.e("n", "ArraySplit", "split_axis", s, &[]);
+        }
+    }
+    // 8e. exact values: narrowing images c + 2^8, c + 2^16, c + 2^32 of a VALID index / axis / coordinate are invalid
+    for s in [vec![3usize], vec![2, 3], vec![2, 3, 2], vec![300], vec![2, 300]] {
+        let r = s.len();
+        let n: usize = s.iter().product();
+        for img in narrowing_images(0).into_iter().chain(narrowing_images(r - 1)) {
+            g.e("m", "ArrayAxis", "apply_along_axis", &s, &[img.to_string()]); g.e("n", "ArrayAxis", "apply_along_axis", &s, &[]);
+            g.e("m", "ArraySplit", "split_axis", &s, &[img.to_string()]);
+            g.e("m", "ArrayManipulate", "delete", &s, &[st("0"), img.to_string()]);
+            g.e("m", "ArraySplit", "array_split", &s, &[st("1"), img.to_string()]);
+            g.e("m", "ArrayTiling", "repeat", &s, &[st("1"), img.to_string()]);
+            g.e("m", "ArrayManipulate", "append", &s, &[l(&s), img.to_string()]);
+            for &(tr, m) in AXIS_REDUCE.iter().take(6) { g.e("m", tr, m, &s, &[img.to_string()]); g.e("m", tr, m, &s, &[format!("-{}", img)]); }
+            g.e("m", "ArrayReorder", "flip", &s, &[format!("0,{img}")]);
+        }
+        for img in narrowing_images(0).into_iter().chain(narrowing_images(n - 1)) {
+            if img < n { continue; }
+            g.e("m", "ArrayIndexing", "index_to_coord", &s, &[img.to_string()]);
+            g.e("m", "ArrayManipulate", "delete", &s, &[img.to_string(), none.clone()]); g.e("t", "ArrayManipulate", "delete", &s, &[st("0"), none.clone()]);
+            g.e("m", "ArrayManipulate", "delete", &s, &[format!("0,{img}"), none.clone()]);
+        }
+        for p in 0..r { for img in narrowing_images(s[p] - 1) { let mut c = vec![0usize; r]; c[p] = img; g.e("m", "ArrayIndexing", "index_at", &s, &[l(&c)]); g.e("m", "ArrayIndexing", "at", &s, &[l(&c)]); g.e("n", "ArrayIndexing", "at", &s, &[]); } }
+    }
+}
+
+/// `Trait.method` (or `class.Trait.method`) keys left out on the huge receivers of stream 8c: the real call or the list-backed
+/// model is not an early refusal there (measured: more than ~50 ms per line at 20 000 elements)
+const HUGE_SKIP: &[&str] = &[];
+
 fn gen(tier: &str, _seed: u64, out: &mut dyn FnMut(String)) {
     let ents = entries();
     let thorough = tier == "thorough";
     let res_keys: BTreeSet<String> = ents.iter().filter(|e| e.res_impl).map(|e| format!("{}.{}", e.tr, e.m)).collect();
     let gen_keys: BTreeSet<String> = ents.iter().filter(|e| e.generic).map(|e| format!("{}.{}", e.tr, e.m)).collect();
-    let mut g = Gen { out, seen: BTreeMap::new(), suffix: String::new(), only: Only::All, res_keys, gen_keys, capture: None };
+    let mut g = Gen { out, seen: BTreeMap::new(), suffix: String::new(), only: Only::All, res_keys, gen_keys, capture: None, skip: BTreeSet::new() };
     // 1. propagation: every Result-receiver method x every error value
     let nerr = error_values().len();
     for e in &ents { if e.res_impl { for i in 0..nerr { g.e("p", e.tr, e.m, &[2, 3], &[format!("e{i}")]); } } }
@@ -820,6 +970,9 @@ fn gen(tier: &str, _seed: u64, out: &mut dyn FnMut(String)) {
             (g.out)(line);
         }
     }
+
+    // 8. ROBUSTNESS STREAMS, PART 2
+    gen_part2(&mut g, thorough, &captured);
 
     // 5. option spellings through the five public parsers (&str and String impls)
     let seen = std::mem::take(&mut g.seen);
